@@ -9,6 +9,7 @@ package httpserver
 import (
 	"bytes"
 	"context"
+	"crypto/tls"
 	"io"
 	"net"
 	"net/http"
@@ -102,4 +103,17 @@ func VerifClassify(info caskettls.ClientHelloInfo, r *http.Request) (checked, mi
 	})}
 	h.ServeHTTP(nil, r.WithContext(context.Background()))
 	return
+}
+
+// VerifHelloListener wraps inner in the real ClientHello-recording listener
+// (what Server.Serve uses for TLS sites) and returns it together with an
+// accessor for what it has recorded for a remote address.
+func VerifHelloListener(inner net.Listener, cfg *tls.Config) (net.Listener, func(remoteAddr string) (caskettls.ClientHelloInfo, bool)) {
+	l := newTLSListener(inner, cfg)
+	return l, func(remoteAddr string) (caskettls.ClientHelloInfo, bool) {
+		l.helloInfosMu.RLock()
+		defer l.helloInfosMu.RUnlock()
+		info, ok := l.helloInfos[remoteAddr]
+		return caskettls.ClientHelloInfo(info), ok
+	}
 }
